@@ -10,6 +10,7 @@ if [ -n "$PROPS" ]; then
   for n in $(cat /var/tmp/sb-list.txt); do p=$(python3 -c "import json;print(json.load(open('seeded/$n/meta.json'))['property'])"); case " $PROPS " in *" $p "*) echo $n;; esac; done > /var/tmp/sb-list2.txt
   mv /var/tmp/sb-list2.txt /var/tmp/sb-list.txt
 fi
+[ -n "$LIST" ] && cp "$LIST" /var/tmp/sb-list.txt     # LIST=<file>: only the changes named in the file
 mkdir -p /var/tmp/sb
 k=0
 while [ $k -lt $N ]; do
